@@ -40,6 +40,8 @@ def main():
             print("repository tests with the patch: " + t.stdout.strip().splitlines()[-1])
         env = dict(os.environ)
         env.pop("PYTHONHASHSEED", None)
+        # whether a change is detected must not depend on how busy the machine is: no time cap while measuring detection
+        env.setdefault("VERIF_CAP_S", "3000")
         for p in props:
             t0 = time.time()
             r = subprocess.run(
